@@ -1294,10 +1294,294 @@ func c23NestedLie(g *Gen) (*c23Ty, []byte) {
 	return ty, b
 }
 
+// ---- untyped item trees (generator: cut a list right after an element header) ----
+
+type c23Node struct {
+	list bool
+	null bool
+	b    []byte
+	kids []*c23Node
+}
+
+// c23Hdr: header of the first item of b: kind (0 single byte, 1 string, 2 list, 3 nil), header
+// length, payload size; ok=false if the header itself is incomplete or the size is not an int
+func c23Hdr(b []byte) (kind, hdr, size int, ok bool) {
+	if len(b) == 0 {
+		return 0, 0, 0, false
+	}
+	tag := int(b[0])
+	long := func(n int) (int, bool) {
+		if len(b) < 1+n {
+			return 0, false
+		}
+		v := new(big.Int).SetBytes(b[1 : 1+n])
+		if !v.IsInt64() {
+			return 0, false
+		}
+		return int(v.Int64()), true
+	}
+	switch {
+	case tag < 0x80:
+		return 0, 0, 1, true
+	case tag <= 0xb7:
+		return 1, 1, tag - 0x80, true
+	case tag < 0xc0:
+		n, ok := long(tag - 0xb7)
+		return 1, 1 + tag - 0xb7, n, ok
+	case tag <= 0xf7:
+		return 2, 1, tag - 0xc0, true
+	default:
+		n, ok := long(tag - 0xf7)
+		if ok && tag == 0xf8 && n == 0 {
+			return 3, 2, 0, true
+		}
+		return 2, 1 + tag - 0xf7, n, ok
+	}
+}
+
+func c23ParseTree(b []byte) (*c23Node, []byte, bool) {
+	kind, hdr, size, ok := c23Hdr(b)
+	if !ok || size > len(b)-hdr {
+		return nil, nil, false
+	}
+	body, rest := b[hdr:hdr+size], b[hdr+size:]
+	switch kind {
+	case 0, 1:
+		return &c23Node{b: body}, rest, true
+	case 3:
+		return &c23Node{null: true}, rest, true
+	}
+	n := &c23Node{list: true}
+	for len(body) > 0 {
+		k, r, ok := c23ParseTree(body)
+		if !ok {
+			return nil, nil, false
+		}
+		n.kids = append(n.kids, k)
+		body = r
+	}
+	return n, rest, true
+}
+
+func (n *c23Node) enc() []byte {
+	if n.null {
+		return c23Nil
+	}
+	if !n.list {
+		return c23RefBytes(n.b, 0)
+	}
+	var p []byte
+	for _, k := range n.kids {
+		p = append(p, k.enc()...)
+	}
+	return c23RefList(p, 0)
+}
+
+// only the header of an element, announcing a body that will not be there
+func (n *c23Node) cutHeader(g *Gen) []byte {
+	switch g.Intn(4) {
+	case 0:
+		// long form with the size bytes missing or incomplete
+		base := 0xb7
+		if n.list {
+			base = 0xf7
+		}
+		k := 1 + g.Intn(3)
+		return append([]byte{byte(base + k)}, g.Bytes(g.Intn(k))...)
+	case 1:
+		// complete long-form header, no body
+		base := 0x80
+		if n.list {
+			base = 0xc0
+		}
+		return c23LongHeader(base, uint64(56+g.Intn(300)), 0)
+	}
+	e := n.enc()
+	kind, hdr, size, _ := c23Hdr(e)
+	if kind == 1 || kind == 2 {
+		if size > 0 {
+			return e[:hdr]
+		}
+	}
+	// single byte / empty / nil: announce 1..55 bytes
+	base := 0x80
+	if n.list {
+		base = 0xc0
+	}
+	return []byte{byte(base + 1 + g.Intn(55))}
+}
+
+// c23CutAfterHeader re-encodes the tree so that the list at `path` ends right after the
+// header of its child `idx` (all enclosing list sizes stay consistent)
+func (n *c23Node) encCut(g *Gen, path []int, idx int) []byte {
+	var p []byte
+	if len(path) == 0 {
+		for i := 0; i < idx; i++ {
+			p = append(p, n.kids[i].enc()...)
+		}
+		p = append(p, n.kids[idx].cutHeader(g)...)
+		return c23RefList(p, 0)
+	}
+	for i, k := range n.kids {
+		if i == path[0] {
+			p = append(p, k.encCut(g, path[1:], idx)...)
+		} else {
+			p = append(p, k.enc()...)
+		}
+	}
+	return c23RefList(p, 0)
+}
+
+// all (path to a non-empty list at depth 1..3)
+func (n *c23Node) listPaths(prefix []int, out *[][]int) {
+	if !n.list || len(prefix) > 2 {
+		return
+	}
+	if len(n.kids) > 0 {
+		*out = append(*out, append([]int{}, prefix...))
+	}
+	for i, k := range n.kids {
+		k.listPaths(append(prefix, i), out)
+	}
+}
+
+// c23CutGen: valid typed value, then one list (depth 1..3) cut right after an element header
+func c23CutGen(g *Gen) (*c23Ty, []byte, bool) {
+	for try := 0; try < 8; try++ {
+		ty := c23GenTy(g, 1+g.Intn(3), g.Intn(3) != 0, false)
+		if ty.K != 'L' && ty.K != 'R' && ty.K != 'S' && ty.K != 'M' && ty.K != 'P' {
+			continue
+		}
+		v := reflect.New(ty.goType()).Elem()
+		c23GenVal(g, v, ty, 0)
+		b, err := codec.RLP.MarshalToBytes(v.Addr().Interface())
+		if err != nil || len(b) > 1<<12 {
+			continue
+		}
+		tree, rest, ok := c23ParseTree(b)
+		if !ok || len(rest) != 0 {
+			continue
+		}
+		var paths [][]int
+		tree.listPaths(nil, &paths)
+		if len(paths) == 0 {
+			continue
+		}
+		// prefer deeper lists
+		path := paths[g.Intn(len(paths))]
+		if p2 := paths[g.Intn(len(paths))]; len(p2) > len(path) {
+			path = p2
+		}
+		at := tree
+		for _, i := range path {
+			at = at.kids[i]
+		}
+		return ty, tree.encCut(g, path, g.Intn(len(at.kids))), true
+	}
+	return nil, nil, false
+}
+
+// ---- type-directed walk over the regions the decoder parses (oracle) ----
+
+const (
+	c23WOk = iota
+	c23WNil
+	c23WBadSize // an item's header+body does not lie within its enclosing list / the input
+	c23WOther   // malformed in another way, or not understood: no verdict
+)
+
+// c23WalkTyped looks at the first item of region (the rest of the enclosing list, or the
+// input) as a value of type ty, following only what the decoder parses: struct fields in
+// order (missing trailing fields are absent, extra content is skipped unparsed, a nil in a
+// non-nullable field makes the whole struct nil and skips its rest), at most n array
+// elements, all slice elements and map entries. Returns the item length and a verdict.
+func c23WalkTyped(ty *c23Ty, region []byte) (int, int) {
+	kind, hdr, size, ok := c23Hdr(region)
+	if len(region) == 0 {
+		return 0, c23WOther
+	}
+	if !ok || size > len(region)-hdr {
+		return 0, c23WBadSize
+	}
+	total := hdr + size
+	if kind == 0 {
+		total = 1
+	}
+	nilAbsorbing := ty.K == 'B' || ty.K == 'L' || ty.K == 'P' || ty.K == 'M'
+	if kind == 3 {
+		if ty.K == 'P' {
+			return 2, c23WOk
+		}
+		if nilAbsorbing {
+			return 2, c23WOk
+		}
+		return 2, c23WNil
+	}
+	switch ty.K {
+	case 'P':
+		n, st := c23WalkTyped(ty.E[0], region)
+		if st == c23WNil {
+			st = c23WOk
+		}
+		return n, st
+	case 'L', 'R', 'S', 'M':
+		if kind != 2 {
+			return total, c23WOther
+		}
+		body := region[hdr : hdr+size]
+		switch ty.K {
+		case 'L', 'R':
+			for i := 0; len(body) > 0 && (ty.K == 'L' || i < ty.N); i++ {
+				n, st := c23WalkTyped(ty.E[0], body)
+				if st == c23WBadSize || st == c23WOther {
+					return total, st
+				}
+				body = body[n:]
+			}
+		case 'S':
+			for i := 0; len(body) > 0 && i < ty.N; i++ {
+				n, st := c23WalkTyped(ty.E[i], body)
+				if st == c23WBadSize || st == c23WOther {
+					return total, st
+				}
+				if st == c23WNil {
+					return total, c23WNil
+				}
+				body = body[n:]
+			}
+		case 'M':
+			for len(body) > 0 {
+				n, st := c23WalkTyped(ty.E[0], body)
+				if st != c23WOk {
+					if st == c23WNil {
+						st = c23WOther
+					}
+					return total, st
+				}
+				body = body[n:]
+				if len(body) == 0 {
+					return total, c23WOther
+				}
+				n, st = c23WalkTyped(ty.E[1], body)
+				if st == c23WBadSize || st == c23WOther {
+					return total, st
+				}
+				body = body[n:]
+			}
+		}
+		return total, c23WOk
+	default:
+		if kind == 2 {
+			return total, c23WOther
+		}
+		return total, c23WOk
+	}
+}
+
 func c23Gen(g *Gen) {
 	for i := 0; i < g.N; i++ {
 		depth := g.Intn(4)
-		switch c := g.Intn(22); {
+		switch c := g.Intn(24); {
 		case c < 7:
 			// valid typed value through marshal (+ unmarshal in the oracle)
 			ty := c23GenTy(g, depth, true, false)
@@ -1361,6 +1645,11 @@ func c23Gen(g *Gen) {
 					}
 				}
 				g.Emit("ovf i%d i%d", v, w)
+			}
+		case c >= 22:
+			// a list (depth 1..3) that ends right after the header of one of its elements
+			if ty, b, ok := c23CutGen(g); ok {
+				g.Emit("dec %s %s", hx(b), ty)
 			}
 		case c >= 20:
 			// nested size lies: huge declared list size(s), inside a long-form string/list
@@ -1607,10 +1896,18 @@ func (c23Runner) step(t []string, o *Oracle) string {
 		if err != nil {
 			o.Count("dec-err")
 			o.Count("dec-err-kind-" + string(ty.K))
+			if _, wst := c23WalkTyped(ty, b); wst == c23WBadSize {
+				o.Count("dec-err-walker-badsize")
+			}
 			return "err"
 		}
 		o.Count("dec-ok")
 		o.Count("dec-ok-kind-" + string(ty.K))
+		// sizes beyond the enclosing list are rejected: an independent type-directed walk over
+		// the parsed regions must not find an item that does not fit its enclosing list
+		_, wst := c23WalkTyped(ty, b)
+		o.Check(wst != c23WBadSize, "decode-accepts-element-beyond-enclosing-list",
+			"accepted %x as %s although an element's header+body does not lie within its enclosing list / the input", b, ty)
 		if bytes.Contains(b, c23Nil) {
 			o.Count("dec-ok-input-has-f800")
 		}
